@@ -37,6 +37,9 @@ enum Prefixing {
     /// the prefix of the reference is declared on the LOCAL element that carries it
     /// (`<xs:element name="Uses" type="q1:Thing" xmlns:q1="…"/>`, the .NET/WCF style)
     DeclaredOnLocalElement,
+    /// the reference is unprefixed under a DEFAULT namespace declared on the local element itself
+    /// (`<xs:element ref="Thing" xmlns="…"/>`)
+    DefaultDeclaredOnLocalElement,
 }
 
 fn build(kind: Kind, target_b: bool, prefixing: Prefixing, user_first: bool, decoys: bool, same_name_chain: bool, elem_first: bool, idiom: bool) -> SchemaSet {
@@ -100,14 +103,19 @@ fn build(kind: Kind, target_b: bool, prefixing: Prefixing, user_first: bool, dec
     if (prefixing == Prefixing::Default && !target_b) || (prefixing == Prefixing::DefaultIsImported && target_b) {
         q.prefer = Some(String::new());
     }
-    let local_decl: Vec<(String, String)> = if prefixing == Prefixing::DeclaredOnLocalElement { vec![("q1".into(), tns.to_string())] } else { vec![] };
+    let local_decl: Vec<(String, String)> = match prefixing {
+        Prefixing::DeclaredOnLocalElement => vec![("q1".into(), tns.to_string())],
+        Prefixing::DefaultDeclaredOnLocalElement => vec![(String::new(), tns.to_string())],
+        _ => vec![],
+    };
+    let on_local = matches!(prefixing, Prefixing::DeclaredOnLocalElement | Prefixing::DefaultDeclaredOnLocalElement);
     let user = match kind {
-        Kind::Type if prefixing == Prefixing::DeclaredOnLocalElement => {
+        Kind::Type if on_local => {
             let mut e = Elem::new("Uses", TypeRef::Named(q));
             e.xmlns = local_decl.clone();
             complex("User", vec![Particle::Elem(e), el("UserMark", TypeRef::b("string"))])
         }
-        Kind::Ref if prefixing == Prefixing::DeclaredOnLocalElement => complex("User", vec![Particle::Ref(ElemRef { target: q, min: 1, max: Max::N(1), xmlns: local_decl.clone() }), el("UserMark", TypeRef::b("string"))]),
+        Kind::Ref if on_local => complex("User", vec![Particle::Ref(ElemRef { target: q, min: 1, max: Max::N(1), xmlns: local_decl.clone() }), el("UserMark", TypeRef::b("string"))]),
         Kind::Type => complex("User", vec![el("Uses", TypeRef::Named(q)), el("UserMark", TypeRef::b("string"))]),
         Kind::Base => Comp::Complex(ComplexType { name: "User".into(), base: Some(q), seq: Some(Seq::of(vec![el("UserMark", TypeRef::b("string"))])), ..Default::default() }),
         Kind::Ref => complex("User", vec![Particle::Ref(ElemRef { target: q, min: 1, max: Max::N(1), xmlns: vec![] }), el("UserMark", TypeRef::b("string"))]),
@@ -132,6 +140,9 @@ fn build(kind: Kind, target_b: bool, prefixing: Prefixing, user_first: bool, dec
         a_comps.push(user);
     }
     if prefixing == Prefixing::ShadowedOnComponent {
+        // BEFORE it: a type that extends the rebinding component (read ahead while this one is read)
+        // and then uses `p` itself, meaning A
+        a_comps.insert(0, Comp::Complex(ComplexType { name: "BeforeDerived".into(), base: Some(QName::new(NS_A, "User")), seq: Some(Seq::of(vec![el("BeforeUses", TypeRef::n(NS_A, "Thing")), el("BeforeUsesPart", TypeRef::n(NS_A, "Part"))])), ..Default::default() }));
         // after the component that rebinds `p`: `p` denotes A again (printed p:Thing through the root's binding)
         a_comps.push(complex("After", vec![el("AfterUses", TypeRef::n(NS_A, "Thing")), el("AfterUsesPart", TypeRef::n(NS_A, "Part"))]));
         a_comps.push(Comp::Complex(ComplexType { name: "AfterDerived".into(), base: Some(QName::new(NS_A, "Thing")), seq: Some(Seq::of(vec![el("AfterOwn", TypeRef::b("string"))])), ..Default::default() }));
@@ -144,7 +155,7 @@ fn xsd_states() -> Vec<(State, Vec<(&'static str, String)>)> {
     let mut out = vec![];
     for kind in [Kind::Type, Kind::Base, Kind::Ref] {
         for target_b in [false, true] {
-            for prefixing in [Prefixing::Own, Prefixing::TnsClash, Prefixing::Default, Prefixing::DefaultIsImported, Prefixing::SwappedAbbreviations, Prefixing::ShadowedOnComponent, Prefixing::DeclaredOnLocalElement] {
+            for prefixing in [Prefixing::Own, Prefixing::TnsClash, Prefixing::Default, Prefixing::DefaultIsImported, Prefixing::SwappedAbbreviations, Prefixing::ShadowedOnComponent, Prefixing::DeclaredOnLocalElement, Prefixing::DefaultDeclaredOnLocalElement] {
                 for user_first in [false, true] {
                     for (decoys, chain, elem_first, idiom) in [(false, false, false, false), (true, false, false, false), (false, true, false, false), (true, true, false, false), (false, false, true, false), (true, true, true, false), (false, false, true, true), (false, false, false, true), (true, true, true, true)] {
                         let set = build(kind, target_b, prefixing, user_first, decoys, chain, elem_first, idiom);
@@ -301,7 +312,7 @@ pub fn check(tier: &str) -> i32 {
         }
         let ex = r.extract.as_ref().unwrap().as_ref().unwrap();
         let model = RefModel::build(&st.set);
-        let only = |c: &ExpComp| c.name == "User" || c.name == "UsesOwnB" || c.name == "BaseUser" || c.name == "After" || c.name == "AfterDerived" || c.name == "InBUsesA";
+        let only = |c: &ExpComp| c.name == "User" || c.name == "UsesOwnB" || c.name == "BaseUser" || c.name == "After" || c.name == "AfterDerived" || c.name == "BeforeDerived" || c.name == "InBUsesA";
         let vs = compare_api(ex, &model, &ApiCheck { property: "C09", scope: "name-reuse", depth: 1, member_namespaces: true }, Some(&only));
         if vs.is_empty() {
             conformant += 1;
@@ -359,7 +370,7 @@ pub fn check(tier: &str) -> i32 {
     rep.set("traces_validated_against_impl", json!(n));
     rep.set("states_fully_conformant", json!(conformant));
     rep.set("exhaustive", json!(true));
-    rep.set("bound", json!("complete product: reference kind {type=, base=, ref=} x target namespace {own, imported} x prefixing {own prefixes, the prefix tns bound to different URIs in the two files, default namespace, default namespace = imported namespace, each prefix spelling the other namespace's generated abbreviation, a prefix of the root rebound on the referring component only and used again after it, a prefix declared on the local element that uses it} x declaration order {before, after use} x decoys {absent, a local element and an attribute named Thing} x {type Thing before element Thing, element first} x {element Thing of an anonymous type, element Thing of type Thing} x {A's Thing carriers independent, built on B's Thing carriers (same local name along the chain)}; two referrers of different kinds (ref= and base=) to one name in all 24 declaration orders x 2 element forms; WSDL: part element= {WSDL's, imported namespace} x parts {explicit, absent} with message and part named Thing; the imported file also refers to its own Thing through its own prefix"));
+    rep.set("bound", json!("complete product: reference kind {type=, base=, ref=} x target namespace {own, imported} x prefixing {own prefixes, the prefix tns bound to different URIs in the two files, default namespace, default namespace = imported namespace, each prefix spelling the other namespace's generated abbreviation, a prefix of the root rebound on the referring component only and used again after it, a prefix declared on the local element that uses it, a default namespace declared on the local element} x declaration order {before, after use} x decoys {absent, a local element and an attribute named Thing} x {type Thing before element Thing, element first} x {element Thing of an anonymous type, element Thing of type Thing} x {A's Thing carriers independent, built on B's Thing carriers (same local name along the chain)}; two referrers of different kinds (ref= and base=) to one name in all 24 declaration orders x 2 element forms; WSDL: part element= {WSDL's, imported namespace} x parts {explicit, absent} with message and part named Thing; the imported file also refers to its own Thing through its own prefix"));
     let _ = tier;
     rep.assume("a carrier is identified by the namespace its struct declares and its unique marker member");
     rep.finish()
